@@ -59,6 +59,11 @@ CHECKS = {
   technique="runtime monitoring, conservation/order checker over COMMENT tokens (falco's lexer) of input vs formatted output with uniquely numbered comments at every documented placeholder",
   text='Comments with unique serials are inserted at the placeholders docs/parser.md documents (each placeholder alone, all at once, random subsets; #, // and /* */ styles); the formatted output must contain each serial exactly once, in order, with unchanged text modulo the configured marker style; #FASTLY/falco-ignore/@scope comments must survive verbatim.',
   note="Trusts the generator/renderer (documented comment placeholders, inline vs boundary gaps), astcmp with exactly the normalisations the configuration documents, and falco's own lexer/parser as reader of the formatted text. Findings are keyed by root cause after localising to the smallest failing statement; four open root causes of the formatter are listed in known_findings.json."),
+ "C05": dict(
+  category="exploration", design_ref="DESIGN.md §4 C05",
+  technique="runtime monitoring over two completely enumerated finite products: every cell is a one-use VCL program linted by the real linter and executed by the real interpreter in its scope; verdicts compared with the YAML reference tables read at run time and a frozen operator table",
+  text="Every predefined variable x {get,set,unset,typed read} x 9 scopes, every built-in function x signature x 9 scopes x {expression, statement}, every scope-restricted statement and return action x 9 scopes, every assignment/comparison operator x type x type x {literal, local, predefined} (and, in thorough, all 36 two-scope annotations and argument-count/type variants) is instantiated, linted and, when accepted, executed as `falco test` would. The linter must agree with __generator__/*.yml (multi-scope = every scope) and with reftab/assign_table.json; everything accepted must execute without type/undefined/arity errors or crashes. exhaustive: true.",
+  note="The operator reference is a table frozen from the linter at the pinned commit (doubtful cells listed in harness/cmd/c05/FINDINGS.md), so for operators the check detects changes, not pre-existing mistakes; the YAML tables are read from /repo. 441 cells that disagree today (mostly variables the simulator does not implement) are listed one by one in known_findings.json."),
 }
 
 NOT_APPLICABLE = {}
